@@ -637,14 +637,35 @@ def rule_cli(ctx):
     ctx.ob("C01.CLI", fin, f"finish(): close the data stream, then await the completion reply ({seq})", seq == ["close", "command"],
            f"finish() performs {seq}: the server's upload loop ends only on EOF, so the reply must be awaited after closing", construct=f"cli:finish {seq}")
     ae = p.method("DataConnectionThrottleStreamIO", "__aexit__")
-    ok = False
-    for n in walk_no_nested(ae):
-        if isinstance(n, ast.If) and isinstance(n.test, ast.Compare) and isinstance(n.test.ops[0], ast.Is) and isinstance(n.test.comparators[0], ast.Constant) and n.test.comparators[0].value is None:
-            fin_in_body = any(isinstance(c, ast.Call) and is_method_call(c, "finish") and isinstance(p.parent.get(c), ast.Await) for s in n.body for c in walk_self(s))
-            close_else = any(isinstance(c, ast.Call) and is_method_call(c, "close") for s in n.orelse for c in walk_self(s))
-            ok = fin_in_body and close_else
-    ctx.ob("C01.CLI", ae, "__aexit__ awaits finish() on the exception-free exit and closes otherwise", ok,
-           "DataConnectionThrottleStreamIO.__aexit__ does not await finish() exactly on the exception-free exit", construct="cli:__aexit__")
+    excp = [a.arg for a in ae.args.args][2] if len(ae.args.args) > 2 else "exc"
+    verdict = {}
+    for label, val in (("no exception", None), ("exception", ValueError("x"))):
+        fin = clo = 0
+        n_paths = 0
+        unknown = False
+        for ev, out in enum_paths(p, ae):
+            feasible = True
+            for e in ev:
+                if e[0] == "branch":
+                    try:
+                        if bool(eval_expr(p, e[1], {excp: val}, ae)) != e[2]:
+                            feasible = False
+                    except Exception:
+                        unknown = True
+            if not feasible or out[0] in ("cut", "raise"):
+                continue
+            n_paths += 1
+            calls = [c for n in evaluated(ev) for c in walk_self(n) if isinstance(c, ast.Call)]
+            fin += any(is_method_call(c, "finish") and isinstance(p.parent.get(c), ast.Await) for c in calls)
+            clo += any(is_method_call(c, "close") for c in calls)
+        verdict[label] = (n_paths, fin, clo, unknown)
+    if any(v[3] for v in verdict.values()):
+        raise Inconclusive("C01.CLI: a test in DataConnectionThrottleStreamIO.__aexit__ is outside the table evaluator's vocabulary")
+    a, b = verdict["no exception"], verdict["exception"]
+    ok = a[0] >= 1 and a[1] == a[0] and b[0] >= 1 and b[1] == 0 and b[2] == b[0]
+    ctx.ob("C01.CLI", ae, "__aexit__ awaits finish() on every exception-free path and only closes otherwise (evaluated for exc in {None, an exception})", ok,
+           f"DataConnectionThrottleStreamIO.__aexit__ does not await finish() exactly on the exception-free exit (paths/finish/close: no exception {a[:3]}, exception {b[:3]})",
+           construct="cli:__aexit__")
 
 
 RULES = [rule_ack, rule_copy, rule_eof, rule_thru, rule_seek, rule_offset, rule_cli]
